@@ -122,6 +122,37 @@ theorem pandas_builtin_eq_docPred (b : Builtin) (v : Val) (hv : builtinValid b =
 end C01
 end Pandera
 
+/-! ## SeriesSchema -/
+namespace Pandera
+namespace C01
+
+/-- **`SeriesSchema.validate` accepts exactly when the Series satisfies its declaration**: the values
+satisfy the component (name, nullability, uniqueness, dtype, every check) and, when an index component
+is declared, the index satisfies that one — outside the recorded region, for every scope table -/
+theorem series_accepts_iff_partial (T : ScopeTable) (spec : ColSpec) (ix : Option ColSpec) (sname : Option String)
+    (D : Frame) (c : Column) (l : Level) (hc : D.cols = [c]) (hl : D.index = [l]) (hwf : D.WF = true)
+    (hK : ∀ t, spec.dtype = some t → K_C01_strVacuous t c.dtype c.vals = false)
+    (hKi : ∀ i t, ix = some i → i.dtype = some t → K_C01_strVacuous t l.dtype l.vals = false) :
+    seriesErrors T .schemaAndData spec ix sname D = [] ↔
+      (Spec.fieldOk spec sname c.dtype c.vals ∧ ∀ i, ix = some i → Spec.fieldOk i l.name l.dtype l.vals) := by
+  have hfc : ∀ v ∈ c.vals, valFits c.dtype v = true := wf_cols hwf c (by rw [hc]; simp)
+  have hfl : ∀ v ∈ l.vals, valFits l.dtype v = true := wf_index hwf l (by rw [hl]; simp)
+  unfold seriesErrors
+  rw [hc]
+  simp only [List.append_eq_nil_iff]
+  refine and_congr (fieldErrors_nil_iff T .series spec sname c.dtype c.vals hfc hK) ?_
+  cases ix with
+  | none => simp
+  | some i =>
+    simp only [Option.some.injEq, forall_eq']
+    unfold indexErrors
+    rw [hl]
+    simp only [relabel, List.map_eq_nil_iff]
+    exact fieldErrors_nil_iff T .index i l.name l.dtype l.vals hfl (fun t ht => hKi i t rfl ht)
+
+end C01
+end Pandera
+
 /-! ## the whole-column built-in `unique_values_eq` -/
 namespace Pandera
 namespace C01
